@@ -146,12 +146,51 @@ def check_positional(prog, res, cls, m, f, container_fields):
             else:
                 detail = 'unchecked operator[] on the index parameter (no dominating idx >= size test throwing std::out_of_range on the full-width index)'
         else:
+            # delegated to a helper (a template shared by the const / non-const pair, ...): the returned
+            # reference must designate an element of a member container, and on finite models the call
+            # throws std::out_of_range exactly when idx >= size
             detail = 'returned expression is not container.at(idx)'
+            kind_, path_ = root_of(f, r['ch'][0])
+            if kind_ == 'this' and len(path_) == 2 and path_[1] == '[]' and path_[0] in container_fields:
+                verdict_, why_ = model_positional(f, path_[0])
+                if verdict_ == 'ok':
+                    ok = True
+                    used = path_[0]
+                    detail = 'designates an element of %s; walked on finite models: std::out_of_range exactly when idx >= size (%s rows)' % (path_[0], why_)
+                elif verdict_ == 'undecided':
+                    res.undecided('positional', inst, f.loc(r['id']), 'the accessor delegates to code the rule cannot walk (%s)' % why_, function=f.sig, expr='return')
+                    used = path_[0]
+                    continue
+                else:
+                    detail = why_
+            elif kind_ == 'unknown':
+                res.undecided('positional', inst, f.loc(r['id']), 'cannot resolve what the returned reference designates', function=f.sig, expr='return')
+                continue
         if ok:
             res.ok('positional', inst, f.loc(r['id']), detail, function=f.sig, expr='return@%s' % (used,))
         else:
             res.viol('positional', inst, f.loc(r['id']), detail, function=f.sig, expr='return')
     return used
+
+
+def model_positional(f, cont):
+    import a7
+    rows = 0
+    for n_ in (0, 1, 2):
+        for idx in (0, 1, 2, 3, 1 << 32, (1 << 64) - 1):
+            model = {'this.%s.size' % cont: n_, 'arg0': idx}
+            try:
+                _, end, und = a7.walk(f, model, follow_loops=True, max_steps=500)
+            except a7.OutOfRange as e:
+                return 'mismatch', 'with %d element(s) and index %d the accessor reads element %s unchecked' % (n_, idx, e)
+            if end.startswith('undecided') or end == 'loop':
+                return 'undecided', end
+            want = 'NEXIT' if idx < n_ else 'throw:' + OOR
+            got = end.split('@')[0]
+            rows += 1
+            if got != want:
+                return 'mismatch', 'with %d element(s) and index %d the accessor ends in %s; specified %s' % (n_, idx, got, 'a reference to the element' if idx < n_ else 'std::out_of_range')
+    return 'ok', rows
 
 
 def guarded_by_range_check(f, use_id, pid, fld):
